@@ -452,7 +452,9 @@ class HostGen:
             if opnd is not None:
                 forms += ["if_cb", "if_ctx"]
             form = forms[ch.draw(len(forms), "abform")]
-            return [("aborted_loop", n_ab, form, opnd if form.startswith("if") else None)]
+            # what leaves the body is an ordinary exception or one that is not an `Exception` (KeyboardInterrupt,
+            # asyncio's CancelledError, ...) -- the session catches it either way and goes on
+            return [("aborted_loop", n_ab, form, opnd if form.startswith("if") else None, ch.flag(1, 3, "abbase"))]
         if kind == "qblock":
             return self.qubit_block()
         if kind == "qubit":
